@@ -219,6 +219,12 @@ def run_e2e(samply, hsym, case, d, port_base):
             q = os.path.join(sub, rename)
             shutil.copy(p, q)
             p = q
+        if p.startswith(d) and (mapped_as or p).startswith(d) and (mapped_as or p).endswith(".so") and rng.chance(1, 2):
+            # a stale companion next to the binary: <name>.so.dbg left over from ANOTHER build (a valid ELF with symbols, a different id).  It is tried
+            # before the recorded binary and has to be passed over, not taken and not mistaken for "the library cannot be found"
+            other = [f for f in ELF_FIXTURES if not (kind == "fx" and f == arg)]
+            shutil.copy(os.path.join(FX, rng.choice(other)), (mapped_as or p) + ".dbg")
+            case["_stale_dbg"] = case.get("_stale_dbg", 0) + 1
         seg = elf_exec_segment(p)
         if seg:
             paths.append((mapped_as or p, seg))
